@@ -541,8 +541,10 @@ def export_obj_str(surface, **kwargs):
 
         # Compute vertex normals
         if include_vertex_normal:
+            # The vertex parameters are on [0, 1] x [0, 1]; map them to the parametric domain of the surface
+            domain = srf.domain
             for vert in vertices:
-                sn = operations.normal(srf, vert.uv)
+                sn = operations.normal(srf, [dm[0] + (prm * (dm[1] - dm[0])) for prm, dm in zip(vert.uv, domain)])
                 temp = "vn " + str(sn[1][0]) + " " + str(sn[1][1]) + " " + str(sn[1][2]) + "\n"
                 str_vn.append(temp)
 
